@@ -1196,7 +1196,7 @@ fn ob_c17_unroot(k: u8, s: usize, n: usize) {
 // ---------------------------------------------------------------------------------------------
 
 //@ob C19.owned.literal
-//@ props: C19 C05
+//@ props: C19 C11 C05
 //@ kind: bounded(literal text of 0..=2 ASCII bytes; case flag symbolic)
 //@ unwind: 6
 //@ fns: src/token/mod.rs::LeafKind::into_owned src/token/mod.rs::Literal::into_owned
